@@ -1,5 +1,5 @@
 // C16 — source / reference strings: complete enumeration of a token grammar
-// and of all short strings over a 12-symbol alphabet through the real
+// and of all short strings over a 14-symbol alphabet (incl. two multi-byte characters) through the real
 // Source::from_str, Position::from_str and Source::serial.
 
 use super::common::*;
@@ -16,7 +16,7 @@ const PATHS: [&str; 4] = ["", "/", "/get", "/a/b"];
 const SEPS: [&str; 3] = ["", "@", "?"];
 const REFS_FULL: [&str; 17] = ["", "LFBO", "LHR", "43.3,1.35", " -34,18.6", "(", "[", "*", "a,b", "1,2,3", "\\", "\u{e9}", "1e400,0", "nan,nan", "x{99999}", "(?P<a>", "a{2,1}"];
 const REFS_QUICK: [&str; 9] = ["", "LFBO", "43.3,1.35", "(", "*", "a,b", "\\", "nan,nan", "x{99999}"];
-const SHORT_ALPHABET: [char; 12] = [':', '/', '@', '?', '1', 'a', '.', ',', '(', '[', '\\', '#'];
+const SHORT_ALPHABET: [char; 14] = [':', '/', '@', '?', '1', 'a', '.', ',', '(', '[', '\\', '#', '\u{e9}', '\u{20ac}'];
 
 fn describe(r: &Result<Source, String>) -> String {
     match r {
@@ -121,7 +121,7 @@ fn well_formed(apts: &[Apt]) -> Vec<WellFormed> {
         ("@-89.5,-179.25".to_string(), Some((-89.5, -179.25))),
     ];
     let hosts = ["localhost", "1.2.3.4", "example.org", "[::1]", "0.0.0.0", "a-b.c"];
-    let ports = [1u32, 80, 4003, 10003, 30005, 65535];
+    let ports = [0u32, 1, 80, 4003, 10003, 30005, 65535];
     let mut v = Vec::new();
     for (r, pos) in &refs {
         for h in hosts {
@@ -261,7 +261,7 @@ pub fn print_serial_digest() {
 }
 
 pub fn run(ctx: &Ctx, rep: &Report) {
-    rep.set_rule("grammar product scheme x host x port x path x separator x reference, all strings up to a length over a 12-symbol alphabet, all well-formed endpoint/reference combinations, all airport codes; non-trivial = specifications that reach the per-scheme extraction (parse to Ok) or are well-formed");
+    rep.set_rule("grammar product scheme x host x port x path x separator x reference, all strings up to a length over a 14-symbol alphabet (incl. two multi-byte characters), all well-formed endpoint/reference combinations, all airport codes; non-trivial = specifications that reach the per-scheme extraction (parse to Ok) or are well-formed");
     let apts = airports();
     let refs: &[&str] = if ctx.thorough() { &REFS_FULL } else { &REFS_QUICK };
     // (a) grammar product
@@ -314,7 +314,7 @@ pub fn run(ctx: &Ctx, rep: &Report) {
     let mut shorts: Vec<String> = vec![String::new()];
     let mut layer: Vec<String> = vec![String::new()];
     for _ in 0..maxlen {
-        let mut next = Vec::with_capacity(layer.len() * 12);
+        let mut next = Vec::with_capacity(layer.len() * SHORT_ALPHABET.len());
         for s in &layer {
             for c in SHORT_ALPHABET {
                 let mut t = s.clone();
@@ -446,7 +446,7 @@ pub fn run(ctx: &Ctx, rep: &Report) {
     rep.eval(total);
     rep.state(total);
     rep.nontriv(ok_count.load(std::sync::atomic::Ordering::Relaxed) + wf.len() as u64);
-    rep.set_bound(&format!("grammar product ({} strings), all strings of length <= {maxlen} over 12 symbols ({}), {} well-formed specifications x table forms, {} airport codes, 2 extra processes", specs.len(), shorts.len(), wf.len(), sel.len()));
+    rep.set_bound(&format!("grammar product ({} strings), all strings of length <= {maxlen} over 14 symbols ({}), {} well-formed specifications x table forms, {} airport codes, 2 extra processes", specs.len(), shorts.len(), wf.len(), sel.len()));
     rep.assume("well-formed means host and port explicit (or the documented ':port' / 'rtlsdr:' forms); websocket table URLs are written with an explicit port and path");
     if !ctx.thorough() {
         rep.not_exhaustive("quick tier: reduced reference alphabet, strings up to length 4");
